@@ -78,7 +78,9 @@ RECURSIVE RefRun(_, _, _, _, _, _)
 RefRun(K, hs, items, m, off, acc) ==
   IF m > Len(items) THEN acc
   ELSE LET it == items[m]
-           keep == \/ ~it.ok \/ IsControl(it.c) \/ it.c = 32 \/ it.c \in Delims(K)
+           \* (also kept: whitespace that str.strip() would remove once raw at the end of a URL, and - in userinfo - the
+           \*  brackets that would make the authority unparseable)
+           keep == \/ ~it.ok \/ IsControl(it.c) \/ it.c = 32 \/ it.c \in Delims(K) \/ IsWs(it.c) \/ (K = "auth" /\ it.c \in {91, 93})
                    \/ (IsHex(it.c) /\ LoneTail(acc))
            piece == IF keep THEN FlattenSeq([q \in 1..it.n |-> <<PCT>> \o Upper(hs[off + q])])
                     ELSE <<it.c>>
